@@ -55,11 +55,11 @@ pub static mut N: usize = 0;
 /// set when the table overflowed (harness must assert it stays false)
 pub static mut OVERFLOW: bool = false;
 
-#[cfg(kani)]
+#[cfg(all(kani, not(test)))]
 fn exclude_path() {
     kani::assume(false);
 }
-#[cfg(not(kani))]
+#[cfg(any(not(kani), test))]
 fn exclude_path() {
     // native replay: the solver never produces values on an excluded path
     panic!("model: excluded path reached natively");
